@@ -99,6 +99,42 @@ def run(ctx):
                 neg = set(v)
     ctx.ob(R, f"{MO}::_map_costs_to_gen::sign-table", neg == {"load", "storage", "dcline"},
            f"element sign is -1 exactly for {sorted(neg) if neg else neg} (required: dcline, load, storage)", fm.loc())
+    # the sign vector is row-aligned with the cost table that is returned: it must be built after the last filtering of `cost`
+    sts = [st for st in fm.node.body if isinstance(st, ast.Assign)]
+    pos_sign = [i for i, st in enumerate(sts) if any(isinstance(t, ast.Name) and t.id == "signs" for t in st.targets)]
+    pos_cost = [i for i, st in enumerate(sts) if any(isinstance(t, ast.Name) and t.id == "cost" for t in st.targets)]
+    ok = len(pos_sign) == 1 and (not pos_cost or max(pos_cost) < pos_sign[0]) and "cost" in names_in(sts[pos_sign[0]].value)
+    ctx.ob(R, f"{MO}::_map_costs_to_gen::signs-aligned-with-filtered-costs", ok,
+           "signs are computed from the cost rows that are kept" if ok else
+           "the sign vector is built before the cost table is filtered (rows of elements that do not take part are dropped afterwards): "
+           "signs and cost rows are no longer aligned, later entries get the sign of other elements", fm.loc(sts[pos_sign[0]]) if pos_sign else fm.loc())
+    # DC OPF: polynomial coefficients (c2, c1, c0) in MW-units are converted to per unit with baseMVA^(2, 1, 0)
+    fd = ctx.repo.func("pandapower.pypower.dcopf_solver:dcopf_solver")
+    conv = None
+    for node in ast.walk(fd.node):
+        if isinstance(node, ast.Assign) and norm(node.targets[0]) == "polycf" and "baseMVA" in norm(node.value):
+            lists = [n for n in ast.walk(node.value) if isinstance(n, (ast.List, ast.Tuple)) and len(n.elts) == 3]
+            if lists:
+                conv = (node, lists[0])
+    if conv is None:
+        ctx.fail("dcopf_solver: per-unit conversion of the polynomial cost coefficients not found")
+
+    def bexp(e):
+        if isinstance(e, ast.Name) and e.id == "baseMVA":
+            return 1
+        if isinstance(e, ast.BinOp) and isinstance(e.op, ast.Pow) and isinstance(e.left, ast.Name) and e.left.id == "baseMVA" \
+                and isinstance(e.right, ast.Constant):
+            return e.right.value
+        if isinstance(e, ast.BinOp) and isinstance(e.op, ast.Mult) and all(isinstance(x, ast.Name) and x.id == "baseMVA" for x in (e.left, e.right)):
+            return 2
+        if isinstance(e, ast.Constant) and e.value == 1:
+            return 0
+        return None
+    exps = [bexp(e) for e in conv[1].elts]
+    ok = exps == [2, 1, 0]
+    ctx.ob(R, "pandapower.pypower.dcopf_solver::dcopf_solver::polycf-per-unit", ok,
+           "columns (c2, c1, c0) are scaled by baseMVA^(2, 1, 0)" if ok else
+           f"columns (c2, c1, c0) are scaled by baseMVA^{exps}: for net.sn_mva != 1 the DC OPF minimises a different cost function", fd.loc(conv[0]))
     # linear costs as pwl: cost values signed, break points from PMIN/PMAX
     fl = ctx.repo.func(f"{MO}:_add_linear_costs_as_pwl_cost")
     for node in ast.walk(fl.node):
@@ -130,6 +166,8 @@ def variants(repo):
     p = "pandapower/opf/make_objective.py"
     V = Variant
     return [
+        V("signs before filtering", p, in_function("_map_costs_to_gen", lambda s: s.replace('    signs = array([-1 if element in ["load", "storage", "dcline"] else 1 for element in cost.et])\n', '', 1).replace("    cost_is = array(", '    signs = array([-1 if element in ["load", "storage", "dcline"] else 1 for element in cost.et])\n    cost_is = array(', 1)), "signs-aligned-with-filtered-costs"),
+        V("dc opf coefficients scaled in the wrong order", "pandapower/pypower/dcopf_solver.py", replace_once("polycf = dot(polycf, diag([ baseMVA**2, baseMVA, 1]))", "polycf = polycf * array([1, baseMVA, baseMVA**2])"), "polycf-per-unit"),
         V("sign on quadratic term", p, replace_once('ppci["gencost"][gens, COST] = c2\n', 'ppci["gencost"][gens, COST] = c2 * signs\n'), "NCOST=3"),
         V("sign missing on linear term", p, replace_once('ppci["gencost"][gens, COST + 1] = c1 * signs\n', 'ppci["gencost"][gens, COST + 1] = c1\n'), "NCOST=3"),
         V("sign on constant q", p, replace_once('ppci["gencost"][gens_q, COST + 1] = c0\n', 'ppci["gencost"][gens_q, COST + 1] = c0 * signs\n'), "NCOST=2"),
